@@ -1,6 +1,6 @@
 (* One entry point for the correspondence harness: run_line parses a case, runs the model, prints the answer. *)
 From Coq Require Import List Ascii String Bool Arith ZArith.
-From SV Require Import Lib.Str Lib.Sexp Model.Types Model.Naming Model.Discover Driver.Codec.
+From SV Require Import Lib.Str Lib.Sexp Model.Types Model.Naming Model.Discover Model.Api Model.Back Model.Layout Driver.Codec Driver.ApiCodec.
 Import ListNotations.
 
 Definition bad : sexp := L [T"bad-case"].
@@ -48,6 +48,24 @@ Definition run_case (x : sexp) : sexp :=
       | [L g; L w; L p] =>
         match sx_list sx_str g, sx_list sx_str w, sx_list sx_str p with
         | Some g', Some w', Some p' => of_list A (order_asts g' w' p')
+        | _, _, _ => bad end
+      | _ => bad end
+    else if tag_is "back" cmd then
+      match args with
+      | [nc; ax; L fs0] =>
+        match sx_bool nc, api_of_sx ax, sx_list (fun y => match y with L [A p; A c] => Some (p, c) | _ => None end) fs0 with
+        | Some nc', Some a, Some fs => sx_of_back (back_run a nc' fs)
+        | _, _, _ => bad end
+      | _ => bad end
+    else if tag_is "type_string" cmd then
+      match args with
+      | [nc; ax; t] =>
+        match sx_bool nc, api_of_sx ax, ty_of_sx t with
+        | Some nc', Some a, Some t' =>
+          match type_string a nc' t' init_gst with
+          | Ok (s, st) => L [T"ok"; A s; of_list A (g_todos st); of_list A (g_imports st); of_list A (g_outside st)]
+          | Err e => L [T"err"; sx_of_err e]
+          end
         | _, _, _ => bad end
       | _ => bad end
     else bad
